@@ -333,12 +333,14 @@ class TrimWhitespaces(FullAstVisitor):
         self.in_block_comments = False
 
     def visit_WhitespaceNode(self, node: mparser.WhitespaceNode) -> None:
-        lines = node.value.splitlines(keepends=True)
+        # The lexer ends a comment only at '\n': splitlines() would also cut (and strip()
+        # then drop) a form feed, \v, \x1c-\x1e, \x85, U+2028 or U+2029 inside a comment.
+        lines = node.value.split('\n')
         node.value = ''
         in_block_comments = self.in_block_comments
         with_comments = ['#' in line for line in lines] + [False]
         for i, line in enumerate(lines):
-            has_nl = line.endswith('\n')
+            has_nl = i < len(lines) - 1
             line = line.strip()
             if line.startswith('\\'):
                 node.value += ' '  # add space before \
